@@ -46,7 +46,8 @@ void generate(sim::Rng &r, uint64_t seed, const std::string &tier, sim::Plan &p)
       sim::Op op;
       unsigned x = (unsigned)r.below(100);
       if (!hostile || x < 55) { op.kind = "msg"; op.a = {(long)r.below(4), r.range(1, 1000), (long)(r.next() & 0xffffff)}; }
-      else if (x < 80) { op.kind = "raw"; op.a = {(long)(r.next() & 0xffffff), r.range(1, 40)}; }
+      else if (x < 70) { op.kind = "raw"; op.a = {(long)(r.next() & 0xffffff), r.range(1, 40)}; }
+      else if (x < 85) { op.kind = "tricky"; op.a = {(long)r.below(64)}; }
       else { op.kind = "hdr"; op.a = {r.chance(800) ? 1 : 0, (long)r.below(8)}; }
       p.ops.push_back(op);
     }
@@ -171,6 +172,29 @@ void run_framing(const sim::Plan &plan) {
         long n = std::max(1L, std::min(200L, op.arg(1)));
         for (long i = 0; i < n; ++i) s.push_back(alpha[rr.below(sizeof(alpha) - 1)]);
         frames.push_back(s); wellformed.push_back(false);
+      } else if (op.kind == "tricky" && hostile) {
+        // correctly framed texts that are (nearly) JSON-RPC but stress the JSON library's other failure modes:
+        // numbers out of range, wrong member types, lone surrogates, NUL, deep nesting, duplicate members, several documents
+        static const char *const T[] = {
+          "{\"jsonrpc\":\"2.0\",\"id\":1,\"method\":\"m\",\"params\":1e999}", "{\"jsonrpc\":\"2.0\",\"id\":1,\"result\":-1E400}", "[1e999]",
+          "{\"jsonrpc\":\"2.0\",\"id\":1e999,\"method\":\"m\"}", "{\"jsonrpc\":\"2.0\",\"id\":{\"a\":1},\"method\":\"m\"}", "{\"jsonrpc\":\"2.0\",\"id\":\"str\",\"result\":1}",
+          "{\"jsonrpc\":\"2.0\",\"id\":1,\"method\":5}", "{\"jsonrpc\":\"2.0\",\"id\":1,\"error\":\"notobject\"}", "{\"jsonrpc\":\"2.0\",\"id\":1,\"error\":{\"code\":\"x\"}}",
+          "{\"jsonrpc\":2,\"id\":1,\"method\":\"m\"}", "\"just a string\"", "12345", "null", "true", "[]", "{}",
+          "{\"jsonrpc\":\"2.0\",\"id\":18446744073709551616,\"method\":\"m\"}", "{\"jsonrpc\":\"2.0\",\"id\":-9223372036854775809,\"result\":0}",
+          "{\"jsonrpc\":\"2.0\",\"id\":4294967296,\"method\":\"m\"}", "{\"jsonrpc\":\"2.0\",\"id\":-1,\"result\":0}",
+          "{\"jsonrpc\":\"2.0\",\"method\":\"m\",\"params\":\"\\ud800\"}", "{\"jsonrpc\":\"2.0\",\"method\":\"m\",\"params\":\"\\u0000\"}", "{\"jsonrpc\":\"2.0\",\"method\":\"\\udc00x\"}",
+          "{\"jsonrpc\":\"2.0\",\"id\":1,\"method\":\"m\",\"id\":2}", "{\"a\":1}{\"b\":2}", "{\"jsonrpc\":\"2.0\",\"id\":1.5,\"method\":\"m\"}", "{\"jsonrpc\":\"2.0\",\"id\":true,\"result\":{}}",
+          "{\"jsonrpc\":\"2.0\",\"id\":1,\"result\":1,\"error\":{\"code\":1}}", "{\"jsonrpc\":\"2.0\",\"id\":1,\"error\":{\"code\":1e999,\"message\":1}}", "{\"jsonrpc\":\"2.0\",\"id\":null,\"method\":\"m\"}",
+          "{\"jsonrpc\":\"2.0\",\"id\":1,\"method\":null,\"params\":null}", "{\"jsonrpc\":\"2.0\",\"id\":1,\"error\":{\"code\":-32000,\"message\":{\"x\":[1e999]}}}", "1e999", "-0", "[[[[[[[[[[[[[[[[[[[[[[[[[[[[[[[[1]]]]]]]]]]]]]]]]]]]]]]]]]]]]]]]]",
+        };
+        const size_t NT = sizeof(T) / sizeof(T[0]);
+        std::string text = T[(size_t)(((op.arg(0) % (long)NT) + (long)NT) % (long)NT)];
+        if (op.arg(0) % 64 >= 48) { text.assign(300, '['); text += "1"; text.append(300, ']'); }      // deep nesting
+        std::string s;
+        if (kind == 0) { uint32_t L = (uint32_t)text.size(); s.push_back((char)0x5A); s.push_back((char)0xA5); s.push_back((char)(L >> 24)); s.push_back((char)(L >> 16)); s.push_back((char)(L >> 8)); s.push_back((char)L); }
+        s += text;
+        frames.push_back(s); wellformed.push_back(false);
+        sim::probe("tricky_frames");
       } else if (op.kind == "hdr" && hostile) {
         static const uint32_t lens[] = {0, 1, 0xFFFFFFFAu, 0xFFFFFFFBu, 0xFFFFFFFEu, 0xFFFFFFFFu, 0x7FFFFFFFu, 100000};
         uint32_t L = lens[((op.arg(1) % 8) + 8) % 8];
